@@ -21,6 +21,19 @@ def main():
     pid = a.prop.upper()
     from harness.ev import Check
     from harness import tlc
+    # last line of defence against a change that makes the code under test spin without advancing virtual time: a wall-clock
+    # limit far above any tier's normal duration (quick < 3 min, thorough < 20 min per property on this machine)
+    import signal
+
+    def _wall(signum, frame):
+        print("MACHINERY-FAILURE: wall-clock limit reached (a call into the code under test does not return and does not "
+              "advance virtual time); no verdict")
+        try:
+            _kill_descendants(os.getpid())
+        finally:
+            os._exit(2)
+    signal.signal(signal.SIGALRM, _wall)
+    signal.alarm(int(os.environ.get("VERIF_WALL_S", "2400" if a.tier == "quick" else "14400")))
     try:
         mod = importlib.import_module("checks." + pid.lower())
         chk = Check(pid, a.tier, seed, level=getattr(mod, "LEVEL", "model_checking"))
@@ -52,6 +65,32 @@ def main():
         sys.exit(2)
     _cleanup()
     sys.exit(rc)
+
+
+def _kill_descendants(root):
+    """terminate every process below `root` (pool workers, TLC JVMs) - found through /proc, nothing else is touched"""
+    import signal
+    kids = {}
+    for d in os.listdir("/proc"):
+        if d.isdigit():
+            try:
+                with open("/proc/%s/stat" % d) as f:
+                    st = f.read()
+                ppid = int(st[st.rindex(")") + 2:].split()[1])
+                kids.setdefault(ppid, []).append(int(d))
+            except (OSError, ValueError):
+                pass
+    todo, seen = [root], []
+    while todo:
+        p_ = todo.pop()
+        for k in kids.get(p_, []):
+            seen.append(k)
+            todo.append(k)
+    for k in seen:
+        try:
+            os.kill(k, signal.SIGKILL)
+        except OSError:
+            pass
 
 
 def _cleanup():
